@@ -21,9 +21,9 @@ contract(FH + "::ChaperoneLoop.heal", "C18",
                     "ChaperoneLoop._format_error_context": {"returns": "str", "raises": ()}},
          callsite_pre={
              "self.generator": {
-                 "within-budget": "attempt_num >= 0 and attempt_num <= self.max_retries",
+                 "within-budget": "attempt_num >= 0 and attempt_num <= old(self).max_retries",
                  "once-per-attempt": "calls_in_iter('self.generator') == 0",
-                 "gets-prompt": "arg0 == prompt",
+                 "gets-prompt": "arg0 == old(prompt)",
                  "retry-is-fed-previous-error": "(args[1] is None) == (attempt_num == 0) and args[1] is error_context",
              },
          },
@@ -77,7 +77,7 @@ contract(FS + "::RegenerativeSwarm._run_worker", "C18",
          params={"worker": "callback"}, inline=False, returns="opt:str", modifies=[],
          callbacks={"worker.step": {"returns": "str", "raises": ("Exception",)},
                     "RegenerativeSwarm._calculate_entropy": {"returns": "real", "raises": ()}},
-         callsite_pre={"worker.step": {"within-budget": "_ >= 0 and _ < self.max_steps_per_worker",
+         callsite_pre={"worker.step": {"within-budget": "_ >= 0 and _ < old(self).max_steps_per_worker",
                                        "once-per-step": "calls_in_iter('worker.step') == 0"}},
          loops={STEP_LOOP: {"invariant": ["len(recent_outputs) <= 3"], "types": {"recent_outputs": "list:str"}}},
          ensures={"success-carries-marker": "implies(result is not None, has_marker(result))"})
@@ -86,7 +86,7 @@ SUP_LOOP = "while regenerations <= self.max_regenerations"
 contract(FS + "::RegenerativeSwarm.supervise", "C18",
          callbacks={"self.worker_factory": {"returns": "callback", "raises": ("Exception",)},
                     "RegenerativeSwarm._trigger_apoptosis": {"returns": "obj:ApoptosisEvent", "raises": ("Exception",)}},
-         callsite_pre={"self.worker_factory": {"within-budget": "regenerations >= 0 and regenerations <= self.max_regenerations",
+         callsite_pre={"self.worker_factory": {"within-budget": "regenerations >= 0 and regenerations <= old(self).max_regenerations",
                                                "once-per-round": "calls_in_iter('self.worker_factory') == 0"}},
          loops={SUP_LOOP: {
              "invariant": ["regenerations >= 0", "regenerations <= max(self.max_regenerations + 1, 0)",
@@ -113,7 +113,7 @@ contract(FN + "::Nucleus.transcribe_with_tools", "C18",
                     "mitochondria.export_tool_schemas": {"returns": "list:any", "raises": ()},
                     "mitochondria.execute_tool_call": {"returns": "any", "raises": ("Exception",)},
                     "self.provider.name": {"returns": "str"}},
-         callsite_pre={"complete_with_tools": {"within-budget": "iterations >= 1 and iterations <= max_iterations",
+         callsite_pre={"complete_with_tools": {"within-budget": "iterations >= 1 and iterations <= old(max_iterations)",
                                                "once-per-round": "calls_in_iter('complete_with_tools') == 0"},
                        "provider.complete": {"single-final-completion": "calls_to('provider.complete') == 0"}},
          loops={TOOL_LOOP: {"invariant": ["iterations >= 0"], "decreases": "max_iterations - iterations", "property_level": ["decreases"],
